@@ -12,7 +12,8 @@
                                scale.range([0, innerHeight | innerWidth])
      export / compute
        timePos       :317-320  scale(time) per datum (get_nodes :235-238)
-       add_axis      :379-380, 702-703  scale.ticks() and scale(tick)
+       add_axis      :379-380, 702-703  scale.ticks(), scale(tick) and
+                               scale.tickFormat()(tick) (Time/TickFormat.v)
 
    Scales: LinearScale (Scale/Linear.v, Ticks.v, Nice.v: lin, ticks .. 10,
    nice 10) and TimeScale (Time/TimeScale.v, TimeTicks.v, TimeNice.v: ts_apply,
@@ -21,10 +22,10 @@
    NOT in this model (covered by the tie of harness/props/c11.py only): the
    engine's recursion depth (CPython frames; open known finding for conflict
    clusters above 200 items), the dict-key handling of omitted / partial
-   options, the emitters' string formatting, tick texts. *)
-From Coq Require Import ZArith QArith List Bool.
+   options, the emitters' string formatting. *)
+From Coq Require Import ZArith NArith QArith List Bool.
 From Labella Require Import Render.Geometry Render.Scene
-  Time.Calendar Time.Interval Time.TimeScale Time.TimeTicks Time.TimeNice
+  Time.Calendar Time.Interval Time.TimeScale Time.TimeTicks Time.TimeNice Time.TickFormat
   Scale.Linear Scale.Ticks Scale.Nice.
 Import ListNotations.
 Open Scope Q_scope.
@@ -102,7 +103,8 @@ Record axis_out : Type := mk_axis_out {
   ax_len : Q;                           (* scale.range() = [0, ax_len] *)
   ax_dots : list Q;                     (* timePos of every datum, in datum order *)
   ax_tick_at : list pval;               (* scale.ticks() ([] when showTicks is false) *)
-  ax_ticks : list Q                     (* scale(tick) *)
+  ax_ticks : list Q;                    (* scale(tick) *)
+  ax_tick_text : list (list N)          (* scale.tickFormat()(tick), code points *)
 }.
 
 (* ---------- linear scale ---------------------------------------------------------------- *)
@@ -133,7 +135,8 @@ Definition axis_linear (i : axis_in) (items : list pval) : ares axis_out :=
              else AOk []) (fun tk =>
       AOk (mk_axis_out (PNum d0) (PNum d1) len
                        (map (lin_pos d0 d1 len) xs)
-                       (map PNum tk) (map (lin_pos d0 d1 len) tk))))
+                       (map PNum tk) (map (lin_pos d0 d1 len) tk)
+                       (map (lin_tick_format d0 d1 10) tk))))
   end).
 
 (* ---------- time scale -------------------------------------------------------------------- *)
@@ -168,7 +171,8 @@ Definition axis_time (i : axis_in) (items : list pval) : ares axis_out :=
       abind (if o_ticks (ai_opts i) then of_res (ts_ticks d0 d1 10) else AOk []) (fun tk =>
       AOk (mk_axis_out (PInst d0) (PInst d1) len
                        (map (time_pos d0 d1 len) ts)
-                       (map PInst tk) (map (time_pos d0 d1 len) tk))))
+                       (map PInst tk) (map (time_pos d0 d1 len) tk)
+                       (map time_format tk))))
   end).
 
 (* ---------- the pipeline ---------------------------------------------------------------------- *)
@@ -186,3 +190,11 @@ Definition axis (i : axis_in) : ares axis_out :=
 (* the one function of the scale coordinate at which dots and ticks sit *)
 Definition ax_pos (o : axis_out) (x : Q) : Q :=
   Linear.lin (coord (ax_d0 o)) (coord (ax_d1 o)) 0 (ax_len o) x.
+
+(* the text of a tick: scale.tickFormat() applied to the tick (linear: the number of
+   decimals comes from the tick step of the reported domain) *)
+Definition tick_format (o : axis_out) (p : pval) : list N :=
+  match p with
+  | PInst t => time_format t
+  | PNum x => lin_tick_format (coord (ax_d0 o)) (coord (ax_d1 o)) 10 x
+  end.
